@@ -21,6 +21,42 @@ Section G.
     exists p. rewrite r_pc_finalize, r_pok_wrapper_verify. subst sig c. cbv zeta in Hf.
     split; [f_equal; exact Hf|exact Hv].
   Qed.
+  (* C10, exactness: the translated trait-level verifier accepts exactly on the pairing equation with all four guards *)
+  Theorem generated_pok_verify_exact (u v : pt K Gsig) (pk : pt K Gpk) (y : car K) (msg dst : bytes) :
+    (dbg = true -> eta O msg dst <> f0 K) ->
+    (gen_BlsSignatureProof_verify E u v pk y msg dst = Val (Ok tt)
+     <-> dl u <> f0 K /\ dl v <> f0 K /\ dl pk <> f0 K /\ y <> f0 K
+         /\ fadd K (dl v) (fmul K (fadd K (dl u) (fmul K (eta O msg dst) y)) (dl pk)) = f0 K).
+  Proof. intros H. rewrite r_pok_verify. apply (C10_verify_exact K laws O dbg u v pk y msg dst H). Qed.
+
+  (* C10: a proof accepted by the translated verifier is accepted under no other challenge and no other key *)
+  Theorem generated_pok_other_challenge_rejected (u v : pt K Gsig) (pk : pt K Gpk) (y y' : car K) (msg dst : bytes) :
+    (dbg = true -> eta O msg dst <> f0 K) -> eta O msg dst <> f0 K ->
+    gen_BlsSignatureProof_verify E u v pk y msg dst = Val (Ok tt) ->
+    gen_BlsSignatureProof_verify E u v pk y' msg dst = Val (Ok tt) -> y' = y.
+  Proof. rewrite !r_pok_verify. apply (C10_other_challenge_rejected K laws O dbg u v pk y y' msg dst). Qed.
+
+  Theorem generated_pok_other_key_rejected (u v : pt K Gsig) (pk pk' : pt K Gpk) (y : car K) (msg dst : bytes) :
+    (dbg = true -> eta O msg dst <> f0 K) -> fadd K (dl u) (fmul K (eta O msg dst) y) <> f0 K ->
+    gen_BlsSignatureProof_verify E u v pk y msg dst = Val (Ok tt) ->
+    gen_BlsSignatureProof_verify E u v pk' y msg dst = Val (Ok tt) -> pk' = pk.
+  Proof. rewrite !r_pok_verify. apply (C10_other_key_rejected K laws O dbg u v pk pk' y msg dst). Qed.
+
+  (* C10: the translated prover's output and its guards *)
+  Theorem generated_pok_prover_output (u : pt K Gsig) (x y : car K) (sig : pt K Gsig) :
+    dl u <> f0 K -> dl sig <> f0 K -> x <> f0 K -> y <> f0 K ->
+    gen_BlsSignatureProof_generate_proof E u x y sig = Val (Ok (u, pneg (pmul sig (fadd K x y)))).
+  Proof. intros. rewrite r_generate_proof, (C10_prover_output K laws u x y sig); auto. Qed.
+
+  Theorem generated_pok_prover_guards (u : pt K Gsig) (x y : car K) (sig : pt K Gsig) :
+    dl u = f0 K \/ dl sig = f0 K \/ x = f0 K \/ y = f0 K ->
+    gen_BlsSignatureProof_generate_proof E u x y sig = Val (Err InvalidInputs).
+  Proof. intros H. rewrite r_generate_proof, (C10_prover_guards K laws u x y sig H). reflexivity. Qed.
 End G.
 
 Print Assumptions generated_pok_verifies.
+Print Assumptions generated_pok_verify_exact.
+Print Assumptions generated_pok_other_challenge_rejected.
+Print Assumptions generated_pok_other_key_rejected.
+Print Assumptions generated_pok_prover_output.
+Print Assumptions generated_pok_prover_guards.
